@@ -22,17 +22,21 @@ TRUSTED = [
     "Easter in the spec is Spec.mjb (Meeus/Jones/Butcher), in the model the translated easter.easter (C19 proves them equal on 1583..4099)",
     "proved for the model: every table entry vs the calendar; masks = dates for every year; start/until/count/whole seconds and strict "
     "monotonicity for ALL rules and all seven frequencies; period day sets and advance of the calendar frequencies; the BY filter in calendar "
-    "terms; iter = Spec.occ for DAILY/WEEKLY/MONTHLY/YEARLY with BYMONTH/BYMONTHDAY/BYYEARDAY/plain BYDAY/BYHOUR/BYMINUTE/BYSECOND, BYSETPOS "
-    "(WEEKLY only with the start on the week start), MONTHLY / YEARLY nth weekdays, YEARLY BYEASTER (-80..250, 1583..4099), defaults, COUNT, UNTIL; every yielded value a valid datetime.  NOT proved (covered by correspondence + oracle only): exactness for HOURLY/MINUTELY/SECONDLY, "
-    "BYWEEKNO, BYEASTER outside YEARLY, nth BYDAY / BYEASTER mixed with BYMONTHDAY or plain BYDAY",
+    "terms; iter = Spec.occ for the 41 families of SupportedBy (all seven frequencies; BYWEEKNO outside D-C01c and BYEASTER outside D-C01d under every "
+    "frequency; nth weekdays alone and with BYWEEKNO / BYEASTER; MINUTELY / SECONDLY with every combination of BYHOUR / BYMINUTE / BYSECOND under decidable "
+    "reachability hypotheses); the constructed rule depends only on the member SETS of the BY lists; INTERVAL < 1 is a ValueError; interleaved iterators of one "
+    "object do not interfere on the model's state machine.  NOT proved (correspondence + oracle only): BYEASTER with BYWEEKNO below YEARLY, nth BYDAY + BYWEEKNO + "
+    "BYEASTER, nth mixed with plain BYDAY (D-C01a) and the other known-defect classes",
+    "one object / several iterators: the code is tied to the per-iterator state of the model by the AST audit c01_shared_state_sites.json (attributes "
+    "rrule._iter / _iterinfo read and write, where _iterinfo is built) and by the interleaved-history stream",
 ]
 ASSUMPTIONS = [
     "aware starts: the model carries tzinfo as an opaque tag; `until` is compared in the frame of dtstart.tzinfo "
     "(exact for the same tzinfo object and for fixed-offset zones, which is what the generators use)",
     "calendar.firstweekday() is pinned to 0 (wkst=None means Monday)",
     "datetime comparison / date.fromordinal / datetime.time range checks are CPython's (modelled in Base, tied by base.* ops)",
-    "outside the quantifier (not required): interval <= 0, empty BY tuples, members outside the RFC ranges, dtstart=None; these are "
-    "exercised by the correspondence only",
+    "outside the quantifier (not required): empty BY tuples, members outside the RFC ranges, dtstart=None; these are "
+    "exercised by the correspondence only.  INTERVAL < 1 must be refused by the constructor with ValueError (oracle class; fix D-C01-interval)",
     "an exception raised after the last representable instant of year 9999 counts as the end of the sequence",
 ]
 RULE = ("seeded rules over freq 0..6 x interval 1..400 (and large sub-daily intervals) x wkst None/0..6 x subsets of "
